@@ -348,10 +348,10 @@ Definition to_text (full : bool) (u : url) : mres text :=
   let fragment := quote full CFrag (u_frag u) in
   MOk ((if nonempty scheme then scheme ++ [58] else [])
        ++ (if nonempty authority then [47; 47] ++ authority
-           else if nonempty scheme
-                   && negb (match path with 47 :: 47 :: _ => true | _ => false end)
-                   && (match path with [] => true | 47 :: _ => true | _ => false end)
-                   && uses_netloc u then [47; 47] else [])
+           else if (match path with 47 :: 47 :: _ => true | _ => false end)
+                   || (nonempty scheme
+                       && (match path with [] => true | 47 :: _ => true | _ => false end)
+                       && uses_netloc u) then [47; 47] else [])
        ++ (if nonempty path
            then (if nonempty scheme && nonempty authority
                     && negb (match path with 47 :: _ => true | _ => false end) then [47] else [])
